@@ -186,10 +186,25 @@ pub fn norm_state(r: &Runner) -> Value {
             let mut rcns: Vec<String> = r.class_infos(0, &name).iter()
                 .map(|c| format!("{}:{}", c.parent, c.rcn)).collect();
             rcns.sort();
-            let held = r.held_set(0, &name).map(|s| {
-                crate::model::Res::from_set(&s).to_string()
-            }).unwrap_or_default();
+            // A CA that no longer hangs off the trust anchor (removed at
+            // its parent, parent deleted) keeps whatever certificate it
+            // held when it last synchronised: which one that is depends
+            // on when background work ran relative to the removal, not on
+            // the fault. Its resources, key states and object counts are
+            // not compared.
+            let orphaned = name != "testbed" && !r.is_live(0, &name, 0);
+            if orphaned {
+                classes = vec!["orphaned".into()];
+            }
+            let held = if orphaned { "-".to_string() } else {
+                r.held_set(0, &name).map(|s| {
+                    crate::model::Res::from_set(&s).to_string()
+                }).unwrap_or_default()
+            };
             let mut roas: Vec<String> = ca.configured_roas().iter().map(|c| {
+                if orphaned {
+                    return c.roa_configuration.to_string()
+                }
                 format!(
                     "{} objects:{}", c.roa_configuration,
                     c.roa_objects.len()
@@ -255,7 +270,8 @@ pub fn norm_state(r: &Runner) -> Value {
                         // Key identifiers (fresh after a repeated key
                         // roll) are not compared.
                         let mut issues: Vec<String> = rp.issues.iter()
-                            .map(|i| mask_key_ids(i)).collect();
+                            .map(|i| mask_class_dirs(&mask_key_ids(i)))
+                            .collect();
                         issues.sort();
                         issues
                     },
@@ -1198,8 +1214,26 @@ pub fn run_pair_only(
                         && twin.sites.iter().position(|s| {
                             s.contains(":delete_scope:")
                         }).map(|p| (k as usize) <= p).unwrap_or(false);
+                    // Removing a parent does the same: the revocation
+                    // requests for the keys under that parent are sent
+                    // "best effort" before the status entry and the
+                    // parent are removed.
+                    let best_effort_parent = match &target {
+                        Op::RemoveParent { name, .. } => {
+                            *variant == "fail"
+                                && twin.sites.iter().position(|s| {
+                                    s.contains(&format!(
+                                        ":delete:{name}:parents-"
+                                    ))
+                                }).map(|p| (k as usize) <= p).unwrap_or(false)
+                        }
+                        _ => false,
+                    };
                     let rule = if best_effort {
                         "delete_ca_best_effort_step_failed"
+                    }
+                    else if best_effort_parent {
+                        "remove_parent_best_effort_step_failed"
                     }
                     else if in_window {
                         // The stored object set is ahead of the CA and
@@ -1303,6 +1337,24 @@ pub(crate) fn align_recreated(twin: &Value, faulted: &Value) -> (Value, Value) {
         }
     }
     (twin, faulted)
+}
+
+/// Replaces path segments that are a resource class name (`/0/`, `/12/`)
+/// by `/N/`.
+fn mask_class_dirs(text: &str) -> String {
+    let mut out = String::with_capacity(text.len());
+    let mut rest = text;
+    while let Some(pos) = rest.find('/') {
+        out.push_str(&rest[..=pos]);
+        rest = &rest[pos + 1..];
+        let digits = rest.bytes().take_while(|b| b.is_ascii_digit()).count();
+        if digits > 0 && rest[digits..].starts_with('/') {
+            out.push('N');
+            rest = &rest[digits..];
+        }
+    }
+    out.push_str(rest);
+    out
 }
 
 /// Replaces every run of 40 hex digits (a key identifier) by `KEY`.
